@@ -226,6 +226,24 @@ def case(ctx, case):
                         ctx.ambiguous += 1
                         ctx.count("c11_float32_conditioning_cases")
                         dm = dm * 0
+                if bool((dm > 1e-4 + noise).any()) and (dk.get("top_k") or dk.get("top_p")):
+                    # under a top-k / nucleus filter a float-level difference of the raw scores (1e-8 between batch layouts) can move
+                    # an exactly tied score across the cut: compare the RAW decoder scores of the two evaluations instead - if they
+                    # agree to float noise the network is per-instance and the difference is a tie at the filter boundary
+                    with PolicyTap(pol) as rec2:
+                        pol(td0[idx].clone(), env, phase="train", actions=actions[idx].clone(), return_sum_log_likelihood=False, **ev_kw)
+                    worst = 0.0
+                    for t in range(min(len(rec2.steps), len(rec.steps))):
+                        a_, b_ = rec2.steps[t]["logits"].reshape(idx.numel(), -1), rec.steps[t]["logits"].reshape(R, -1)[idx]
+                        mk_ = rec.steps[t]["mask"]
+                        if mk_ is not None:
+                            mk_ = mk_.reshape(R, -1)[idx].bool()
+                            a_, b_ = a_.masked_fill(~mk_, 0.0), b_.masked_fill(~mk_, 0.0)
+                        worst = max(worst, float((a_ - b_).abs().max()))
+                    if rec2.steps and worst <= 1e-5 + noise:
+                        ctx.ambiguous += 1
+                        ctx.count("c11_filter_boundary_ties")
+                        dm = dm * 0
                 if bool((dm > 1e-4 + noise).any()) or (rest.numel() and bool((rest > 1e-5).any())):
                     ctx.violation(dict(sig, q="roundtrip_logprob", minibatch=True), f"evaluating rows {idx.tolist()} of the rollout batch as a mini-batch gives per-step log-probs differing by up to {float(dm.max()):.4g} from the rollout's (the PPO ratio of those rows does not start at one)",
                                   dict(B=B, n=n, decode=case["decode"], idx=idx.tolist()))
